@@ -1204,6 +1204,10 @@ def calc_whitening_matrix(cov_matrix: np.ndarray) -> np.ndarray:
     calc_decorrelation_matrix
     """
     L, V = np.linalg.eig(cov_matrix)
+    # The eigenvectors of a repeated eigenvalue returned by 'eig' are not
+    # orthogonal to each other: orthonormalize them (eigenvectors of
+    # different eigenvalues of a Hermitian matrix already are orthogonal)
+    V = np.linalg.qr(V)[0]
     W = np.dot(V, np.diag(1. / (L**0.5)))
     return W
 
